@@ -7,7 +7,7 @@ Require Import MD.Gen.RmsdFormulas MD.Rmsd.Model.
 Import ZM.
 Local Open Scope Z_scope.
 
-Ltac gen_unfold := autounfold with rmsdgen.
+Ltac gen_unfold := repeat progress autounfold with rmsdgen rmsdgen_snap.
 Ltac proj := cbn [Zf.G_x Zf.G_y Zf.numAtoms Zf.M0 Zf.M1 Zf.M2 Zf.M3 Zf.M4 Zf.M5 Zf.M6 Zf.M7 Zf.M8].
 
 (* --- characteristic polynomial ------------------------------------------------------------- *)
